@@ -24,6 +24,8 @@ def overlay_files(pkgdir, pkgname, harness_files, native):
     base = os.path.join(common.REPO, pkgdir) if pkgdir not in ('.', '') else common.REPO
     ov = {os.path.join(base, 'zz_verif_intr.go'): f}
     for h in harness_files:
+        if isinstance(h, (tuple, list)):      # (symbolic build file, native build file)
+            h = h[1] if native else h[0]
         ov[os.path.join(base, 'zz_verif_' + os.path.basename(h))] = os.path.join(VERIF, 'harness', h)
     return ov
 
